@@ -18,6 +18,7 @@ import glob
 import json
 import math
 import os
+import time
 
 import numpy as np
 
@@ -616,7 +617,15 @@ def compare_hist(ctx, case, init, steps, line, corr='corr:SI.history'):
     ncmp = 0
     for k, (st, (wf, m)) in enumerate(zip(steps, model)):
         op = st['c']['op']
-        if op != 'add' and wf != in_scope_step(st):
+        tie = False
+        if op == 'nli' and st['out'] == 'ok':
+            # NLI increment within 1e-9 of the channel power: the side condition x <= pch is at its threshold and
+            # the chained exact run may judge it differently from the float state -- not judged, counted
+            x, pw = np.asarray(st['c']['v'], dtype=float), st['before']['p']
+            tie = len(x) == len(pw) and bool(np.any(np.abs(x - pw) <= 1e-9 * pw))
+            if tie:
+                ctx.count('hist_threshold_tie_not_judged')
+        if op != 'add' and st['out'] == 'ok' and not tie and wf != in_scope_step(st):
             ctx.corr_break(corr, f'op #{k + 1}: side condition judged {in_scope_step(st)} by the harness, {wf} by the model',
                            jc, impl=in_scope_step(st), model=wf)
             break
@@ -693,7 +702,7 @@ def gen_path_case(rng, flavour=None, thorough=False):
     raman_ok = flavour == 'raman'
     both = rng.random() < 0.7
 
-    def amp_el(uid):
+    def amp_el(uid, force_dp=False):
         if eq == 'multiband':
             if not both:
                 return None
@@ -709,28 +718,55 @@ def gen_path_case(rng, flavour=None, thorough=False):
             op['delta_p'] = rng.choice([None, 0.0, -1.0, 1.0])
         if rng.random() < 0.25:
             op['in_voa'] = rng.choice([0.5, 1.0, 2.0])
+        if force_dp:
+            # gnpy's auto-design raises TypeError (span_loss -> estimate_raman_gain(power_dbm=None)) when an amplifier
+            # with unspecified delta_p precedes a RamanFiber: such amplifiers get an explicit delta_p here
+            op['delta_p'] = rng.choice([0.0, -1.0, 1.0])
+            tv = rng.choice(['std_medium_gain', 'std_low_gain', 'std_high_gain', 'high_power', 'std_fixed_gain'])
         return {'uid': uid, 'type': 'Edfa', 'type_variety': tv, 'operational': op}
 
     def link(a, b, tag):
         """elements between two nodes a -> b"""
         nsp = rng.choice([1, 1, 2, 2, 3])
         prev = a
+        dp_known = a.startswith('trx')      # what precedes the next fibre launches a known power
+        multi = eq == 'multiband' and both
+        if multi:
+            # gnpy's auto-design of multiband OMS is only reliable when every amplifier site is given: booster,
+            # in-line and pre-amplifier are explicit Multiband_amplifier elements (gains / powers still auto-designed)
+            e = amp_el(f'booster {tag}')
+            els.append(e)
+            cx.append((prev, e['uid']))
+            prev = e['uid']
         for k in range(nsp):
             fu = f'fiber {tag}_{k}'
             if eq == 'multiband':
                 els.append(fiber_el(rng, fu, lo=45, hi=110))
             else:
-                els.append(fiber_el(rng, fu, raman=raman_ok and rng.random() < 0.6, short=rng.random() < 0.15))
+                els.append(fiber_el(rng, fu, raman=raman_ok and dp_known and rng.random() < 0.75,
+                                    short=rng.random() < 0.15))
             cx.append((prev, fu))
             prev = fu
             r = rng.random()
             last = k == nsp - 1
-            if r < 0.2 and not last and not raman_ok:
+            dp_known = False
+            if raman_ok and not last:
+                e = amp_el(f'edfa {tag}_{k}', force_dp=True)
+                els.append(e)
+                cx.append((prev, e['uid']))
+                prev = e['uid']
+                dp_known = True
+            elif multi:
+                e = amp_el(f'edfa {tag}_{k}')
+                els.append(e)
+                cx.append((prev, e['uid']))
+                prev = e['uid']
+            elif r < 0.2 and not last:
                 fz = f'fused {tag}_{k}'
                 els.append({'uid': fz, 'type': 'Fused', 'params': {'loss': rng.choice([0, 0.5, 1, 2.5])}})
                 cx.append((prev, fz))
                 prev = fz
-            elif r < 0.6 or (eq == 'multiband' and both and not last):
+            elif r < 0.6:
                 e = amp_el(f'edfa {tag}_{k}')
                 if e:
                     els.append(e)
@@ -768,17 +804,21 @@ def gen_path_case(rng, flavour=None, thorough=False):
             link(f'roadm {b}', f'roadm {a}', b + a)
         src, dst = (f'trx {x}' for x in rng.sample(names, 2))
     topo = {'elements': els, 'connections': [{'from_node': a, 'to_node': b} for a, b in cx]}
+    # NLI method first: the GGN methods are slow, they get tiny combs
+    method = 'gn_model_analytic'
+    if rng.random() < 0.2:
+        method = rng.choice(['ggn_spectrally_separated', 'ggn_approx'])
+    tiny = method != 'gn_model_analytic' or flavour == 'raman'
     # launched spectrum
     spectrum = None
-    r = rng.random()
-    if r < 0.6 or flavour == 'multiband':
+    if tiny or rng.random() < 0.6 or flavour == 'multiband':
         parts = []
         bands = [(191.4e12, 195.0e12)] + ([(186.4e12, 190.0e12)] if eq == 'multiband' else [])
         for (lo, hi) in bands:
             f = lo + rng.randint(0, 20) * 50e9
-            for _ in range(rng.randint(1, 3)):
+            for _ in range(1 if tiny else rng.randint(1, 3)):
                 sw, br = rng.choice(SLOTS[:7])
-                nch = rng.randint(2, 6 if not thorough else 14)      # (a one-channel comb makes Edfa.interpol_params fail)
+                nch = rng.randint(2, 4 if tiny else (6 if not thorough else 14))   # (one channel makes Edfa.interpol_params fail)
                 f_min = f + sw / 2
                 f_max = f_min + (nch - 1) * sw
                 if f_max + sw / 2 > hi:
@@ -788,10 +828,9 @@ def gen_path_case(rng, flavour=None, thorough=False):
                               'tx_power_dbm': rng.choice([0, 0, -3, 3, rng.uniform(-10, 10)])})
                 f = f_max + sw / 2 + rng.choice([0, 0, 50e9, 300e9])
         spectrum = parts or None
-    method = 'gn_model_analytic'
-    if rng.random() < (0.25 if thorough else 0.08) and spectrum and sum(1 for _ in spectrum) <= 3:
-        method = rng.choice(['ggn_spectrally_separated', 'ggn_approx'])
-    sim = {'raman_params': {'flag': flavour == 'raman' or rng.random() < 0.15, 'result_spatial_resolution': 10e3,
+    if spectrum is None and tiny:
+        method = 'gn_model_analytic'
+    sim = {'raman_params': {'flag': flavour == 'raman' or (tiny and rng.random() < 0.3), 'result_spatial_resolution': 10e3,
                             'solver_spatial_resolution': rng.choice([50, 100, 200])},
            'nli_params': {'method': method, 'dispersion_tolerance': 1, 'phase_shift_tolerance': 0.1,
                           'computed_channels': None}}
@@ -828,34 +867,19 @@ class Tracer:
                     entry = {'op': name, 'obj': id(self_), 'arg': np.array(arg, dtype=float).copy(),
                              'n': len(self_._pch), 'f': np.array(self_.frequency, dtype=float)}
                     tr.log.append(entry)
+                    entry['b'] = snap(self_)
                 tr.pdepth += 1
                 try:
                     return orig(self_, arg)
                 finally:
                     tr.pdepth -= 1
+                    if top:
+                        entry['a'] = snap(self_)
             tr.saved.append((SI, name, orig))
             setattr(SI, name, w)
         for nm in self.PRIMS:
             wrap_prim(nm)
 
-        def wrap_fn(mod, name, kind):
-            orig = getattr(mod, name)
-
-            def w(*args, **kw):
-                res = orig(*args, **kw)
-                if kind == 'demux':
-                    si, band = args[0], args[1]
-                    tr.keep += [si, res]
-                    tr.log.append({'op': 'demux', 'obj': id(si), 'lo': float(band['f_min']), 'hi': float(band['f_max']),
-                                   'res': None if res is None else id(res)})
-                else:
-                    lst = list(args[0])
-                    tr.keep += lst + [res]
-                    # muxed_spectral_information recurses: only the outermost call is an entry
-                    if not tr.in_mux:
-                        pass
-                return res
-            return orig, w
         # demux
         odemux = I.demuxed_spectral_information
 
@@ -1169,31 +1193,54 @@ def trx_identity_failures(res):
     return out
 
 
+PRIM_KIND = {'apply_attenuation_lin': 'att', 'apply_attenuation_db': 'att', 'apply_gain_lin': 'gain', 'apply_gain_db': 'gain',
+             'add_ase': 'ase', 'add_nli': 'nli'}
+
+
+def prim_factor(e):
+    """linear factor / noise power of a logged primitive, converted independently of gnpy.core.utils"""
+    op, arg = e['op'], e['arg']
+    if op == 'apply_attenuation_db':
+        return np.power(10.0, -arg / 10.0)
+    if op == 'apply_gain_db':
+        return np.power(10.0, arg / 10.0)
+    return arg
+
+
 def path_oracle_c01(res):
-    """C01 on the per-element observations of a propagated path"""
+    """C01 on the per-element and per-update observations of a propagated path"""
     fails = []
-    scope = True
     for c in res['calls']:
         where = f'after {c["kind"]} {c["uid"]}'
-        # scope of the property: every NLI increment actually applied is at most the channel power
-        for e in c['log']:
+        scope = True
+        for k, e in enumerate(c['log']):
+            if e['op'] not in PRIM_KIND or 'a' not in e:
+                continue
+            w = f'{c["kind"]} {c["uid"]} update #{k + 1} {e["op"]}'
             if e['op'] == 'add_nli':
-                obj_p = None
-                # the power the increment is compared with is the total power at that moment: recompute it
-                # from the before snapshot and the preceding attenuations of the same element
-                obj_p = e.get('p_at')
-            # (validated inside the model replay through ewfb; see check_elem_line)
+                # scope of the property: the NLI increment does not exceed the channel power
+                x = np.broadcast_to(e['arg'], e['b']['p'].shape)
+                scope = scope and bool(np.all((x >= 0) & (x <= e['b']['p'])))
+            if not scope:
+                continue
+            fails += state_failures(e['a'], 'after ' + w)
+            if e['arg'].ndim == 0 or e['arg'].shape in ((1,), e['b']['p'].shape):
+                fails += accounting_failures(PRIM_KIND[e['op']], prim_factor(e), e['b'], e['a'], w)
         a = c['after']
-        if a is None:
+        if a is None or not scope:
             continue
         fails += state_failures(a, where)
         fails += identity_failures(c['si_out'], where)
-        # power bookkeeping of the element as a whole: sig + ase + nli = total (float identity of the products)
-        tot = (a['s'] + a['a'] + a['n']) * a['p']
+        # power bookkeeping of the element as a whole: sig + ase + nli = total
+        tot = a['s'] * a['p'] + a['a'] * a['p'] + a['n'] * a['p']
         bad = ~relclose(tot, a['p'], 1e-12)
         if bad.any():
             i = int(np.argmax(bad))
             fails.append(('power_split', f'{where}: signal+ASE+NLI power of channel #{i} = {tot[i]!r} != total {a["p"][i]!r}'))
+        # band split / merge and channel filtering: what leaves the element are records of what entered it
+        fin = set(c['before']['f'].tolist())
+        if not set(a['f'].tolist()) <= fin or len(set(a['f'].tolist())) != len(a['f']):
+            fails.append(('channel_records', f'{where}: channels created or duplicated by the element'))
     fails += trx_identity_failures(res)
     return fails
 
@@ -1232,38 +1279,77 @@ def load_corpus(prop):
     return cases
 
 
-def build_cases(ctx, prop, n_hist, n_bad, n_path, nmax, maxops):
+def build_cases(ctx, prop, n_hist, n_bad, nmax, maxops):
     rng = ctx.rng
-    cases = load_corpus(prop)
     if ctx.replay:
         rec = json.load(open(ctx.replay))
         return [rec['case']]
-    for _ in range(n_hist):
-        cases.append(make_concrete(rng, gen_hist(rng, nmax, maxops)))
+    cases = load_corpus(prop)
+    for k in range(n_hist):
+        big = k % 10 == 0
+        cases.append(make_concrete(rng, gen_hist(rng, nmax if big else max(4, nmax // 3), maxops if big else max(4, maxops // 2))))
     for _ in range(n_bad):
         cases.append(make_concrete(rng, gen_hist(rng, min(nmax, 8), 6, malformed=True)))
-    flav = ['mesh', 'line', 'multiband', 'raman']
-    for k in range(n_path):
-        cases.append(gen_path_case(rng, flav[k % 4] if k < 8 else None, ctx.thorough))
     return cases
 
 
-def run_all(ctx, prop, hist_oracle_fn, path_oracle_fn, sample_k):
-    """shared driver: returns after filling ctx (violations, corr_breaks, counters)"""
+def process_path(ctx, case, path_oracle_fn, sample_k, terms, meta):
+    """drive one path case; returns False when gnpy refuses the generated network"""
     rng = ctx.rng
-    cases = build_cases(ctx, prop, ctx.scale(260, 4000), ctx.scale(40, 400), ctx.scale(24, 300),
-                        ctx.scale(30, 60), ctx.scale(20, 40))
+    try:
+        res = drive_path(case)
+    except Exception as e:       # a network the generator produced but gnpy cannot design: not a case
+        ctx.count('path_rejected_' + type(e).__name__)
+        return False
+    if res is None:
+        ctx.count('path_no_route')
+        return False
+    ctx.count('path_cases')
+    ctx.count('path_flavour_' + case['flavour'])
+    ctx.count('path_nli_' + case['sim']['nli_params']['method'])
+    ctx.count('path_raman_flag_' + str(bool(case['sim']['raman_params']['flag'])))
+    ctx.count('path_elements', len(res['calls']))
+    ctx.count('path_channels', len(res['si'].frequency))
+    for c in res['calls']:
+        ctx.count('elem_' + c['kind'])
+        if c['kind'] == 'Edfa':
+            ctx.count('amp_model_' + str(c['el'].params.type_def))
+        if c['kind'] == 'Multiband_amplifier':
+            for amp in c['el'].amplifiers.values():
+                ctx.count('amp_model_multiband_' + str(amp.params.type_def))
+    small = {k: v for k, v in jcase(case).items() if k != 'topo'}
+    small['n_elements'] = len(res['calls'])
+    small['elements'] = ''.join(c['kind'][0] for c in res['calls'])
+    ctx.case(small, bool(nontrivial_path(res)))
+    for key, desc in path_oracle_fn(res):
+        ctx.violation(key, desc, jcase(case))
+    for c in res['calls']:
+        term, exp, prob, summ = elem_term(rng, c, sample_k)
+        terms.append(term)
+        meta.append(('elem', case, c, exp, prob, summ))
+    for (term, uid, i, raw, rep) in trx_terms(rng, res, 3):
+        terms.append(term)
+        meta.append(('trx', case, uid, i, raw, rep))
+    return True
+
+
+def run_all(ctx, prop, hist_oracle_fn, path_oracle_fn, sample_k, n_hist, n_bad, n_path):
+    """shared driver of C01 and C02: fills ctx (violations, corr_breaks, counters)"""
+    rng = ctx.rng
+    t_start = time.time()
+    cases = build_cases(ctx, prop, n_hist, n_bad, ctx.scale(30, 60), ctx.scale(20, 40))
     terms, meta = [], []
     for case in cases:
         if case['kind'] == 'hist':
             init, steps = drive_hist(case)
             ops = [s['c']['op'] for s in steps]
-            outs = [s['out'] for s in steps]
             for o in ops:
                 ctx.count('hist_op_' + o)
-            for o in outs:
-                if o != 'ok':
-                    ctx.count('hist_outcome_' + o)
+            for s in steps:
+                if s['out'] != 'ok':
+                    ctx.count('hist_outcome_' + s['out'])
+            if isinstance(init, str):
+                ctx.count('hist_outcome_init_' + init)
             ctx.count('hist_cases')
             ctx.count('hist_channels', 0 if isinstance(init, str) else len(init['f']))
             if any(not in_scope_step(s) for s in steps):
@@ -1274,34 +1360,22 @@ def run_all(ctx, prop, hist_oracle_fn, path_oracle_fn, sample_k):
             terms.append(hist_term(case, init, steps))
             meta.append(('hist', case, init, steps))
         else:
-            try:
-                res = drive_path(case)
-            except Exception as e:       # a network the generator produced but gnpy refuses: not a case
-                ctx.count('path_rejected_' + type(e).__name__)
-                continue
-            if res is None:
-                ctx.count('path_no_route')
-                continue
-            ctx.count('path_cases')
-            ctx.count('path_flavour_' + case['flavour'])
-            ctx.count('path_nli_' + case['sim']['nli_params']['method'])
-            ctx.count('path_elements', len(res['calls']))
-            for c in res['calls']:
-                ctx.count('elem_' + c['kind'])
-                if c['kind'] == 'Edfa':
-                    ctx.count('amp_model_' + str(c['el'].params.type_def))
-            ctx.case({k: v for k, v in jcase(case).items() if k != 'topo'} | {'n_elements': len(res['calls'])},
-                     bool(nontrivial_path(res)))
-            for key, desc in path_oracle_fn(res):
-                ctx.violation(key, desc, jcase(case))
-            for c in res['calls']:
-                term, exp, prob, summ = elem_term(rng, c, sample_k)
-                terms.append(term)
-                meta.append(('elem', case, c, exp, prob, summ))
-            for (term, uid, i, raw, rep) in trx_terms(rng, res, 3):
-                terms.append(term)
-                meta.append(('trx', case, uid, i, raw, rep))
+            process_path(ctx, case, path_oracle_fn, sample_k, terms, meta)
+    if not ctx.replay:
+        # generated paths: a fixed number of accepted networks per flavour (gnpy refuses some generated designs)
+        quota = {'mesh': n_path * 3 // 8, 'line': n_path * 2 // 8, 'multiband': n_path * 2 // 8}
+        quota['raman'] = max(1, n_path - sum(quota.values()))
+        for flavour, q in quota.items():
+            got, tries = 0, 0
+            while got < q and tries < 4 * q + 8:
+                tries += 1
+                if process_path(ctx, gen_path_case(rng, flavour, ctx.thorough), path_oracle_fn, sample_k, terms, meta):
+                    got += 1
+    t_drive = time.time()
     lines = balanced_eval(prop, terms, 'cases')
+    ctx.extra['timing_s'] = {'proofs': round(t_start - ctx.t0, 1), 'gnpy_side': round(t_drive - t_start, 1),
+                             'coq_eval': round(time.time() - t_drive, 1), 'terms': len(terms),
+                             'term_chars': sum(len(x) for x in terms)}
     nstates = 0
     for m, line in zip(meta, lines):
         if m[0] == 'hist':
@@ -1310,7 +1384,7 @@ def run_all(ctx, prop, hist_oracle_fn, path_oracle_fn, sample_k):
             ok = check_elem_line(ctx, m[1], m[2], line, m[3], m[4], m[5])
             ctx.count('elem_replayed')
             if ok is False:
-                ctx.count('elem_out_of_scope')
+                ctx.count('elem_side_condition_false')
         else:
             check_trx_line(ctx, m[1], line, *m[2:])
             ctx.count('trx_channels_replayed')
@@ -1319,8 +1393,9 @@ def run_all(ctx, prop, hist_oracle_fn, path_oracle_fn, sample_k):
         'dB arguments (apply_attenuation_db / apply_gain_db, reported dB figures) are converted to linear by the harness '
         'with math.pow, independently of gnpy.core.utils; values of NLI / ASE computed by the solvers and amplifier '
         'models enter the model as logged (their correctness is C03 / C04)',
-        'element replays use a sample of the channels of each snapshot (updates are per channel); the oracle looks at '
-        'every channel',
+        'bulk histories are replayed step by step from the state gnpy was in before each operation (small ones also as '
+        'one chained run); element replays use a sample of the channels of each snapshot (updates are per channel); '
+        'the oracle looks at every channel; the 1e-9 comparison of the bulk runs is done by Run/C01.v (qclose)',
         'numpy broadcasting of scalar arguments is expanded by the harness',
     ]
 
@@ -1334,5 +1409,5 @@ def run(ctx):
                 '(b) random designed networks (meshes, ROADM-less lines, multiband, Raman; every amplifier model of the '
                 'shipped library; mixed-rate launched spectra) traced element by element; a history is non-trivial with >= 3 '
                 'operation kinds, a path with >= 4 elements incl. fibre and amplifier; distinct by content hash')
-    run_all(ctx, PROP, hist_oracle, path_oracle_c01, 6)
+    run_all(ctx, PROP, hist_oracle, path_oracle_c01, 6, ctx.scale(220, 4000), ctx.scale(40, 400), ctx.scale(20, 280))
     return common.finish(ctx, {})
